@@ -1,6 +1,7 @@
 use crate::operation::Operation;
 use chrono::{DateTime, Utc};
 use serde::{Deserialize, Serialize};
+use std::cmp::Ordering;
 use uuid::Uuid;
 
 /// A SyncOp defines a single change to the task database, that can be synchronized
@@ -105,16 +106,16 @@ impl SyncOp {
                     timestamp: timestamp2,
                 },
             ) if uuid1 == uuid2 && property1 == property2 => {
-                // if the value is the same, there's no conflict
-                if value1 == value2 {
-                    (None, None)
-                } else if timestamp1 < timestamp2 || (timestamp1 == timestamp2 && value1 < value2) {
-                    // prefer the later modification or, if the modifications have the same
-                    // timestamp, the greater value, so that the choice does not depend on
-                    // which replica synchronized first
-                    (None, Some(operation2))
-                } else {
-                    (Some(operation1), None)
+                // Prefer the later modification or, if the modifications have the same
+                // timestamp, the greater value, so that the choice does not depend on which
+                // replica synchronized first. Two updates to the same value do not conflict,
+                // but the later one is kept so that it can still win over a third replica's
+                // update made between the two.
+                match timestamp1.cmp(timestamp2).then_with(|| value1.cmp(value2)) {
+                    Ordering::Less => (None, Some(operation2)),
+                    Ordering::Greater => (Some(operation1), None),
+                    // identical updates reach the same state with no further operations
+                    Ordering::Equal => (None, None),
                 }
             }
 
